@@ -143,6 +143,8 @@ def syntax_error_location(args):
         return (v, None, True)
     # file name only: legitimate only when the parser ran out of input
     files = {"f.c"} | {ff for _, _, _, ff in rec if ff is not None}
+    # ... or set by a directive that no token follows (a linemarker at the very end of the text)
+    files |= set(re.findall(r'^[ \t]*#[ \t]*(?:line[ \t]+)?\d+[ \t]+"([^"\n]*)"', v, re.M))
     if not any(msg.startswith(ff + ": ") for ff in files):
         return (v, "ParseError %r does not start with a location" % msg[:70], True)
     at_end = False
